@@ -67,6 +67,15 @@ def run_case(case, tier):
         d2 = {}
         recs = c01.edit_layout(recs, rng, d2)
         desc["edits"] = d2.get("edits")
+    if any(r.raw is None and r.chain == " " for r in recs):
+        # the option has no syntax for a blank chain identifier: give that chain an unused letter
+        used = {r.chain for r in recs if r.raw is None}
+        free = [c for c in "ZYXWVUTSRQPONMLKJIHGFEDCBA" if c not in used]
+        if free:
+            recs = [r if r.raw is not None or r.chain != " " else r.copy() for r in recs]
+            for r in recs:
+                if r.raw is None and r.chain == " ":
+                    r.chain = free[0]
     if any(r.raw is None and r.chain == " " for r in recs) or not sources.identities_unique(recs):
         return util.finish(case, viol, counts, classes, False, desc, inconclusive="blank chain / ambiguous ids")
     # "MODEL" copies are fine; alt-locs were removed
